@@ -388,7 +388,7 @@ class Categorize(Factory, Container):
             else:
                 raise JsonFormatException(json, "Categorize.bins")
 
-            out = Categorize.ed(entries, contentType, **bins)
+            out = Categorize.ed(entries, contentType, bins)
             out.binsName = dataName
             out.quantity.name = nameFromParent if name is None else name
             return out.specialize()
